@@ -128,6 +128,32 @@ func runC03(c *mon.Ctx) {
 				want[tag] = append([]byte{}, b...)
 			}
 		}
+		if r.IntN(4) == 0 {
+			// the caller cut all tables from one buffer (e.g. a file read into
+			// memory, or one arena): back to back, every slice with the
+			// following tables in its spare capacity
+			var tags []string
+			total := 0
+			for tag, b := range tables {
+				if b != nil {
+					tags = append(tags, tag)
+					total += len(b)
+				}
+			}
+			sort.Strings(tags)
+			r.Shuffle(len(tags), func(i, j int) { tags[i], tags[j] = tags[j], tags[i] })
+			arena := make([]byte, total+16)
+			for i := range arena {
+				arena[i] = 0xA5
+			}
+			off := 0
+			for _, tag := range tags {
+				n := copy(arena[off:], tables[tag])
+				tables[tag] = arena[off : off+n]
+				off += n
+			}
+			k.Class("tables-share-one-buffer")
+		}
 		desc := func() string {
 			var keys []string
 			for tag, b := range tables {
@@ -160,6 +186,18 @@ func runC03(c *mon.Ctx) {
 			k.Fail("mismatch", "wrong-count", "header.Write returned %d, wrote %d bytes", nw, len(out))
 		}
 		checkContainer(k, out, scaler, want, desc)
+		// the caller's tables are the caller's: only the checksum adjustment
+		// of head (bytes 8..11) is documented to be patched in place
+		for tag, b := range want {
+			got := tables[tag]
+			if tag == "head" && len(b) >= 12 && len(got) == len(b) {
+				got = append(append(append([]byte{}, got[:8]...), b[8:12]...), got[12:]...)
+			}
+			if !bytes.Equal(got, b) {
+				k.Fail("mismatch", "write-modifies-callers-tables", "header.Write changed the caller's table %q at byte %d\n%s", tag, firstDiff(got, b), desc())
+				break
+			}
+		}
 		k.Class(fmt.Sprintf("ntables=%d", len(want)))
 		if nNil > 0 {
 			k.Class("nil-entries")
@@ -175,7 +213,7 @@ func runC03(c *mon.Ctx) {
 		}
 	})
 	c03fonts(c)
-	c.Require("with-head", "without-head", "nil-entries", "bad-length-keys", "len-mod4=0", "len-mod4=1", "len-mod4=2", "len-mod4=3",
+	c.Require("tables-share-one-buffer", "with-head", "without-head", "nil-entries", "bad-length-keys", "len-mod4=0", "len-mod4=1", "len-mod4=2", "len-mod4=3",
 		"ntables=1", "ntables=7", "ntables=8", "ntables=9", "ntables=16", "ntables=17", "ntables=31", "ntables=32", "ntables=33")
 }
 
